@@ -284,6 +284,11 @@ class Network:
         """
         with self.graph_lock:
             peer = self.reverse_ip_lookup.pop(address, None)
+            if peer:
+                # The cached entry may have gone stale (peer removed, replaced or moved): re-validate it.
+                peer = self.verified_by_public_key_bin.get(peer.public_key.key_to_bin())
+                if peer and address not in peer.addresses.values():
+                    peer = None
             if not peer:
                 for p in self.verified_peers:
                     if address in p.addresses.values():
